@@ -10,7 +10,7 @@ EXTENDS MonCommon
 
 MonInit == [ sid |-> "", called |-> <<>>, writes |-> <<>>, chunks |-> <<>>, acks |-> <<>>, grants |-> <<>>, hookB |-> <<>>, hookA |-> <<>>,
              closeReq |-> <<>>, closeCall |-> 0, closeRet |-> "none", faults |-> 0, quiesced |-> FALSE, sendFail |-> 0,
-             flushes |-> 0, watchdog |-> 0, closeTO |-> 0, ackTO |-> 0, closeCallT |-> 0, closeBound |-> 0, ackAt |-> <<>> ]
+             flushes |-> 0, watchdog |-> 0, closeTO |-> 0, ackTO |-> 0, closeCallT |-> 0, closeBound |-> 0, ackAt |-> <<>>, closeRetI |-> 0, hookLate |-> 0 ]
 \* (scenario parameter p.track = short id of the upstream to judge, e.g. "u2"; default: the first upstream opened)
 MonReset(e) == IF "p" \in DOMAIN e /\ "track" \in DOMAIN e.p THEN [MonInit EXCEPT !.sid = e.p.track] ELSE MonInit
 
@@ -26,7 +26,7 @@ MonStep(m, e) ==
       [] e.ev = "ApiCall" /\ e.op = "Write" /\ e.sid = m.sid -> [m EXCEPT !.called = Append(@, [id |-> e.id, pts |-> e.pts])]
       [] e.ev = "ApiRet" /\ e.op = "Flush" /\ e.sid = m.sid -> [m EXCEPT !.flushes = @ + 1]
       [] e.ev = "ApiCall" /\ e.op = "CloseUp" /\ e.sid = m.sid -> [m EXCEPT !.closeCall = e.i, !.closeCallT = OptF(e, "t"), !.closeBound = OptF(e, "boundMs")]
-      [] e.ev = "ApiRet" /\ e.op = "CloseUp" /\ e.sid = m.sid -> [m EXCEPT !.closeRet = e.err]
+      [] e.ev = "ApiRet" /\ e.op = "CloseUp" /\ e.sid = m.sid -> [m EXCEPT !.closeRet = e.err, !.closeRetI = e.i]
       [] e.ev = "BRecvChunk" /\ e.sid = m.sid ->
             [m EXCEPT !.chunks = Append(@, [seq |-> e.seq, g |-> GroupsOf(e.groups), gl |-> e.groups, ids |-> RangeS(e.ids), i |-> e.i])]
       [] e.ev = "BRecvChunk" /\ e.sid = "?" -> [m EXCEPT !.chunks = Append(@, [seq |-> e.seq, g |-> {<<"?", <<>>>>}, gl |-> <<>>, ids |-> {}, i |-> e.i])]
@@ -38,7 +38,9 @@ MonStep(m, e) ==
                       !.grants = @ \o [k \in 1..Len(e.aliases) |-> [al |-> e.aliases[k][1], id |-> e.aliases[k][2], i |-> e.i]]]
       [] e.ev = "BSendFail" -> [m EXCEPT !.sendFail = @ + 1]
       [] e.ev = "HookBefore" /\ e.sid = m.sid -> [m EXCEPT !.hookB = Append(@, [seq |-> e.seq, g |-> GroupsOf(e.groups)])]
-      [] e.ev = "HookAfter" /\ e.sid = m.sid -> [m EXCEPT !.hookA = Append(@, <<e.seq, e.code>>)]
+      [] e.ev = "HookAfter" /\ e.sid = m.sid -> [m EXCEPT !.hookA = Append(@, <<e.seq, e.code>>),
+                                                                  \* diagnostic only (never a verdict): a result reported after Close had returned
+                                                                  !.hookLate = @ + (IF m.closeRetI > 0 THEN 1 ELSE 0)]
       [] e.ev = "Fault" /\ e.do \in {"cutBefore", "cutAfter", "cutOnRecv"} -> [m EXCEPT !.faults = @ + 1]
       [] e.ev = "BLinkDown" /\ e.cause = "script" -> [m EXCEPT !.faults = @ + 1]
       [] e.ev = "Watchdog" -> [m EXCEPT !.watchdog = @ + 1]
@@ -129,5 +131,5 @@ MonVerdict(m) ==
 MonStats(m) == [ premise |-> IF Premise(m) THEN 1 ELSE 0, writes |-> Len(m.writes), chunks |-> Len(m.chunks), acks |-> Len(m.acks),
                  grants |-> Len(m.grants), hookA |-> Len(m.hookA), hookB |-> Len(m.hookB),
                  aliasChunks |-> Cardinality({ k \in 1..Len(m.chunks) : \E j \in 1..Len(m.chunks[k].gl) : m.chunks[k].gl[j].f = "al" }),
-                 multiChunk |-> IF N(m) >= 2 THEN 1 ELSE 0, watchdog |-> m.watchdog ]
+                 multiChunk |-> IF N(m) >= 2 THEN 1 ELSE 0, watchdog |-> m.watchdog, hookAfterCloseReturned |-> m.hookLate ]
 =============================================================================
